@@ -44,6 +44,17 @@ fn entry(op: &crate::exec::COp) -> &'static str {
 pub fn eval(c: &RawCase) -> Outcome {
     let mut o = Outcome::default();
     let (cfg, bv, steps, run) = run_resolved(c);
+    if std::env::var("VERIF_TRACE").is_ok() {
+        for (i, (s, r)) in steps.iter().zip(run.results.iter()).enumerate() {
+            let t = match &s.op {
+                crate::exec::COp::Video { pts, .. } => format!("video pts={:?}", pts),
+                crate::exec::COp::VideoDts { pts, dts, .. } => format!("video pts={:?} dts={:?}", pts, dts),
+                crate::exec::COp::Audio { pts, .. } => format!("audio pts={:?}", pts),
+                other => format!("{:?}", other).chars().take(40).collect(),
+            };
+            eprintln!("TRACE {} {} verdict={:?} result={}", i, t, s.verdict, r.short());
+        }
+    }
     // build
     match (&bv, &run.build) {
         (Verdict::MustAccept, CallResult::Ok) => {}
